@@ -112,7 +112,8 @@ def r1(ctx, facts):
     encoder_shape(r, facts, b2, "calculate_token_for_partition_key", w2)
     # calculate_token routes the writer into the hasher and finishes it
     cb = facts.one(r"^scylla::statement::prepared::PartitionKey::<'ps>::calculate_token$")
-    r.instance("calculate_token:encode-then-finish", bool(cb.calls_to("write_encoded_partition_key")) and bool([c for bb, c in cb.calls() if (c.decl or "").endswith("PartitionerHasher::finish")]),
+    fam = closure_family(facts, cb)
+    r.instance("calculate_token:encode-then-finish", bool(cb.calls_to("write_encoded_partition_key")) and bool([c for x in fam for bb, c in x.calls() if (c.decl or "").endswith("PartitionerHasher::finish")]),
                "calculate_token must feed write_encoded_partition_key into the partitioner's hasher and return finish()", cb.span, nontrivial=False)
 
 
